@@ -239,7 +239,7 @@ HEADER = (
 
 def call_cases(rng, tier):
     out = []
-    n = 700 if tier == "quick" else 6000
+    n = 1100 if tier == "quick" else 8000
     names = list(calls.SIGS)
     for _ in range(n):
         s = rng.choice(names)
@@ -397,6 +397,8 @@ def run(tier: str, replay: str | None = None):
         e2e_hist["solver_error"] += int(o.get("solver_error", False))
         e2e_hist["bounds"] += o["bounds"]
         e2e_hist["or_bounds"] += o["or_bounds"]
+        e2e_hist["unsatisfiable_by_brute_force"] = e2e_hist.get("unsatisfiable_by_brute_force", 0) + int(bool(o.get("unsatisfiable")))
+        e2e_hist["no_typevar_return_calls"] = e2e_hist.get("no_typevar_return_calls", 0) + int(cse["sig"].startswith("n_"))
         bs_ = e2e_hist["by_sig"].setdefault(cse["sig"], [0, 0])
         bs_[1 if o["diagnosed"] else 0] += 1
         if len(e2e_samples) < 4 and not o["diagnosed"] and o["solutions"]:
